@@ -276,9 +276,22 @@ impl BVisitor for StaticCheck<'_> {
             3 => {
                 let _ = self.0.query_one::<Q>(self.2);
             }
-            _ => {
+            4 => {
                 let mut p = PreparedQuery::<Q>::new();
                 let _ = p.query_mut(self.0);
+            }
+            _ => {
+                // a prepared query whose cache is already valid for this world (filled through the dynamically
+                // checked path, which has nothing to borrow here): the static check must not depend on the cache
+                let mut p = PreparedQuery::<Q>::new();
+                let _ = std::panic::catch_unwind(std::panic::AssertUnwindSafe(|| {
+                    let _ = p.query(&*self.0).iter().count();
+                }));
+                if self.1 == 5 {
+                    let _ = p.query_mut(self.0);
+                } else {
+                    let _ = p.view_mut(self.0);
+                }
             }
         }
     }
